@@ -107,6 +107,8 @@ def build_world(patched=True):
         dev.servos.append(self)
         dev.servo_pins.add(pin_number(self.pin))
         eng().emit("servo_attach", pin_number(self.pin), self._min_pulse, self._max_pulse)
+        # the device parks the horn at the minimum pulse when it attaches (host state: angle=min, pulse=min)
+        eng().emit("servo_pulse", pin_number(self.pin), self._current_angle, self._current_pulse)
 
     def Sv_w(self, angle):
         sv_w(self, angle)
@@ -129,6 +131,8 @@ def build_world(patched=True):
     def M_init(self, *a, **k):
         m_init(self, *a, **k)
         dev.motor.append(tuple(pin_number(p) for p in self.pins))
+        # the device drives the bridge to a safe stop during setup (host state: mode coast, speed 0)
+        eng().emit("motor", tuple(pin_number(p) for p in self.pins), "coast", 0.0)
 
     def M_apply(self, speed):
         m_apply(self, speed)
@@ -276,14 +280,15 @@ def transform_script(src: str, passes: int) -> ast.Module:
     return tree
 
 
-def run_script(src: str, passes: int, patched=True):
-    """Execute a user script against the instrumented host world (must be inside an engine run)."""
+def run_script(src: str, passes: int, patched=True, setup_done=None):
+    """Execute a user script against the instrumented host world (must be inside an engine run).
+    setup_done(globals) is called between the prologue and the first main-loop pass."""
     hw = build_world(patched=patched)
     tree = transform_script(src, passes)
     code = compile(tree, "<script>", "exec")
     eng().emit("marker", "setup")
     g = {"__builtins__": hw.builtins, "__name__": "__main__", "__package__": None,
          "__pass_start": lambda: pass_start(hw), "__range": range,
-         "__setup_done": lambda: None}
+         "__setup_done": (lambda: setup_done(g, hw)) if setup_done else (lambda: None)}
     exec(code, g)
     return hw
